@@ -25,6 +25,9 @@ let () =
       (match rule_of_name e with
        | None -> Viol ("unclassified error " ^ e)
        | Some v ->
+         add_coq_case (fun () -> Printf.sprintf "Bool.eqb (c03_header_monitor (mkHeader %s %s %s %s [] %s) %s %s) %s"
+           (cq_bool h.h_fin) (cq_n h.h_rsv) (cq_n h.h_op) (cq_bool h.h_masked) (cq_z h.h_len) (cq_n s)
+           (match v with None -> "None" | Some r -> "(Some " ^ e ^ ")") (cq_bool (c03_header_monitor h s v)));
          if not (c03_header_monitor h s v) then Viol "verdict contradicts the rule set"
          else if check_header h s <> v then Diff "model reports a different (also broken) rule"
          else Pass (broken h s <> []))
@@ -35,6 +38,8 @@ let () =
       (match cerr_of_name e with
        | None -> Viol ("unclassified error " ^ e)
        | Some v ->
+         add_coq_case (fun () -> Printf.sprintf "Bool.eqb (c03_close_monitor %s %s %s) %s" (cq_n c) (cq_bytes r)
+           (cq_bool (v = None)) (cq_bool (c03_close_monitor c r (v = None))));
          if not (c03_close_monitor c r (v = None)) then Viol "close verdict contradicts accept/refuse sets"
          else if check_close c r <> v then Diff "model reports a different error"
          else Pass true)
